@@ -91,6 +91,8 @@ func main() {
 	c.ringRandom(300 * mult)
 	c.histories(quick, mult)
 	c.forcedGetOrCreate()
+	c.directedReadAll()
+	c.spinReadAll(150 * mult)
 	c.checkerControls()
 	res.Exhaustive = false
 	res.Write(f.Out)
@@ -122,11 +124,32 @@ func (c *ctx) replay(path string) {
 	case "hist":
 		var hc histCase
 		_ = json.Unmarshal(rf.Case, &hc)
-		c.checkHistory(hc, true)
-		c.flushHist()
-		// a schedule cannot be replayed; re-run the same configuration under stress as well
-		for i := 0; i < 2000; i++ {
-			c.oneHistory(hc.Obj, hc.Goroutines, hc.OpsPer, hc.Keys)
+		// the recorded history is evidence of what was seen then: report the checkers' verdict on it,
+		// but judge the current tree only by re-running the family that produced it
+		c.res.Note(fmt.Sprintf("recorded history: Go checker says linearizable=%v", linearizable(hc.Obj, hc.Ops)))
+		c.res.Sample(hc)
+		// a schedule cannot be replayed exactly; re-run the family that produced it
+		switch {
+		case strings.HasPrefix(hc.Family, "directed"):
+			var n int
+			var script string
+			if i := strings.Index(hc.Family, " script="); i >= 0 {
+				script = hc.Family[i+len(" script="):]
+				fmt.Sscanf(hc.Family[:i], "directed n=%d", &n)
+			}
+			if n >= 2 && hc.Obj == "map" {
+				c.directedMapRange(n, strings.Split(script, ";"))
+			} else if n >= 2 && hc.Obj == "amap" {
+				c.directedAtomicForEach(n, strings.Split(script, ";"))
+			}
+		case strings.HasPrefix(hc.Family, "spin"):
+			for i := 0; i < 1500; i++ {
+				c.spinRun(hc.Obj, hc.Focus, i%3, 120+4*(i%3), 1+(i/3)%3, []int{120, 70, 50}[(i/3)%3])
+			}
+		default:
+			for i := 0; i < 2000; i++ {
+				c.oneHistory(hc.Obj, hc.Goroutines, hc.OpsPer, hc.Keys)
+			}
 		}
 		c.flushHist()
 	default:
